@@ -83,16 +83,37 @@ def impl_run(case, built):
     return core.impl_ops(q, case["queries"])
 
 
+def spec_line_wanted(toks):
+    """the pointwise specification `QCow2.guest` is evaluated by the driver for images without a qcow2 backing layer
+    (a lower qcow2 layer would be re-walked for every unallocated byte of the top layer)"""
+    return sum(1 for t in toks if t.startswith("L:")) == 1
+
+
 def model_lines(case, built):
     toks = built.info["tokens"]
     a = case["align"]
-    return core.file_lines(built.files) + [f"qcow2.open {a} " + " ".join(toks),
-                                           f"qcow2.stream {a} {len(toks)} " + " ".join(toks) + " " + " ".join(core.op_tokens(case["queries"]))]
+    ops = " ".join(core.op_tokens(case["queries"]))
+    lines = core.file_lines(built.files) + [f"qcow2.open {a} " + " ".join(toks),
+                                            f"qcow2.stream {a} {len(toks)} " + " ".join(toks) + " " + ops]
+    if spec_line_wanted(toks):
+        lines.append(f"qcow2.spec {a} {len(toks)} " + " ".join(toks) + " " + ops)
+    return lines
 
 
 def model_parse(case, built, out):
+    """wf = the driver's `conformantb` on every contributing layer (the hypothesis of `qcow2_read_correct`);
+    spec_eq_model = the model's answers equal the answers computed from the pointwise specification `guest`
+    (an instance of the theorem; only meaningful inside wf)."""
     ok = bool(out) and out[0].startswith("ok")
-    return {"answers": core.parse_stream_answer(out[1]) if len(out) > 1 else None, "wf": ok, "open": out[0] if out else None}
+    wf = ok and ("wf=1" in out[0])
+    answers = core.parse_stream_answer(out[1]) if len(out) > 1 else None
+    spec = core.parse_stream_answer(out[2]) if len(out) > 2 else None
+    rec = {"answers": answers, "wf": wf, "open": out[0] if out else None}
+    if spec is not None and wf:
+        rec["spec_eq_model"] = (spec == answers)
+        if spec != answers:
+            rec["spec"] = spec
+    return rec
 
 
 def nontrivial(case, built, model):
